@@ -34,7 +34,7 @@ HRow(p, ps, first, d, c, h) ==
       nm == NameOf(p, mods, d \o "+Kyber1024", c, h) IN
   [name |-> nm, pat |-> p, psks |-> ps, dh |-> d, cipher |-> c, hash |-> h,
    publen |-> PubLen(d), initpad |-> Len(nm) <= HashLen(h), oneway |-> FALSE,
-   nmsgs |-> NumMsgs(p), hfs |-> TRUE]
+   nmsgs |-> NumMsgs(p), hfs |-> TRUE, variant |-> IF first \/ ps = {} THEN 0 ELSE 1]
 HRoundTrip(row, p, ps, d, c, h) ==
   LET r == ParseNameH(row.name, TRUE) IN
   /\ r.ok /\ r.pat = p /\ r.dh = d /\ r.kem = "Kyber1024" /\ r.cipher = c /\ r.hash = h
